@@ -100,6 +100,8 @@ pub enum Alter {
     DestAddr,
     /// The port(s) the configuration pins.
     FixedPort,
+    /// Both ports pinned: only the second one (destination) differs.
+    FixedPortDest,
     /// The per-round flow port of Paris/Dublin (not pinned by the configuration).
     FlowPort,
     /// Quoted IP protocol / next header.
@@ -108,6 +110,9 @@ pub enum Alter {
     Magic,
     /// ICMP identifier (to another non-zero value).
     IcmpId,
+    /// A foreign UDP datagram whose payload is only the first k (0..=5) octets of the Dublin/IPv6
+    /// marker (e.g. another tool's empty-payload probe): consistent UDP / IP length fields.
+    MagicShort(u8),
 }
 
 impl Hop {
@@ -191,6 +196,8 @@ pub enum JunkKind {
     ForeignTarget,
     /// Quotation with another fixed port (UDP/TCP).
     ForeignPort,
+    /// Both ports pinned: only the *second* pinned port (destination) differs.
+    ForeignPortDest,
     /// Well-formed quotation naming the sequence `round_start + offset` which was never sent.
     NeverSent(i32),
     /// Well-formed quotation naming the next unissued sequence.
@@ -600,6 +607,7 @@ impl World {
                         flip16(&mut q, l4off + 2);
                     }
                 }
+                Alter::FixedPortDest => flip16(&mut q, l4off + 2),
                 Alter::FlowPort => {
                     if self.cfg.fixed_sport.is_some() {
                         flip16(&mut q, l4off + 2);
@@ -616,6 +624,20 @@ impl World {
                     let k = usize::from(sent.ttl) % 6;
                     if q.len() > l4off + 8 + k {
                         q[l4off + 8 + k] ^= 0x20;
+                    }
+                }
+                Alter::MagicShort(k) => {
+                    let k = usize::from(k.min(5));
+                    if q.len() >= l4off + 8 {
+                        q.truncate(l4off + 8 + k);
+                        let ulen = (8 + k) as u16;
+                        q[l4off + 4..l4off + 6].copy_from_slice(&ulen.to_be_bytes());
+                        if v6 {
+                            q[4..6].copy_from_slice(&ulen.to_be_bytes());
+                        } else {
+                            let tot = (l4off + 8 + k) as u16;
+                            q[2..4].copy_from_slice(&tot.to_be_bytes());
+                        }
                     }
                 }
                 Alter::IcmpId => {
@@ -941,6 +963,12 @@ impl World {
                 } else {
                     return None;
                 }
+            }
+            JunkKind::ForeignPortDest => {
+                if self.cfg.proto == Proto::Icmp || self.cfg.fixed_sport.is_none() || self.cfg.fixed_dport.is_none() {
+                    return None;
+                }
+                plan.edits.push((l4 + 2, get16(l4 + 2) ^ 0x0100));
             }
             JunkKind::NeverSent(_) | JunkKind::NextUnissued => {
                 let first = cur.first()?;
